@@ -211,8 +211,31 @@ def class_source(spec) -> str:
          'from harness.progen import E0, E1, E2, B0',
          '']
     nodes = spec['nodes']
+    if any(gbase_ok(n) for n in nodes):
+        # one generic base class for several processing nodes: each is derived from it with build_node(…, attrs={…}) and the
+        # default class name, and differs only in what `attrs` sets (its index — which body it is — and its retry settings)
+        L += ['class GBase(ProcessorBase):',
+              "    name = 'gbase'",
+              '    async def process(self, a: InputGeneric(NodeBase)):',
+              '        return await H.abody(self._idx, self, dict(a=a))',
+              '    def get_default(self, **kwargs):',
+              '        return H.default(self._idx, kwargs)',
+              '']
     for i in topo_decl_order(spec):
         n = nodes[i]
+        if gbase_ok(n):
+            attrs = {'_idx': i}
+            for k in ('attempts', 'delay', 'use_default'):
+                if n.get(k) is not None and n.get(k) is not False:
+                    attrs[k] = n[k]
+            a = ', '.join(f'{k!r}: {v!r}' for k, v in attrs.items())
+            if n.get('exceptions') is not None:
+                a += ", 'exceptions': (" + ''.join(c + ', ' for c in n['exceptions']) + ')'
+            src = n['marks'][0][1]['src']
+            L.append(f'{n["name"]} = build_node(GBase, node_name={n["name"]!r}, a=Input({nodes[src]["name"]}), '
+                     'attrs={' + a + '})')
+            L.append('')
+            continue
         defect = n.get('defect')
         generic = bool(n.get('generic'))
         # a generic *input* node: built with build_node(…, dependencies_default={…}); it takes an optional input key
@@ -302,6 +325,14 @@ def class_source(spec) -> str:
             L.append(f'{n["name"]} = {cname}()')
             L.append('')
     return '\n'.join(L)
+
+
+def gbase_ok(n):
+    """can this node be derived from the shared generic base class: one plain Input parameter `a`, a coroutine, nothing else"""
+    return bool(n.get('gbase')) and not n.get('defect') and not n.get('generic') and not n.get('plain') \
+        and len(n['marks']) == 1 and n['marks'][0][0] == 'a' and n['marks'][0][1]['kind'] == 'input' \
+        and n.get('mode', 'coro') == 'coro' and not n.get('is_rec') and not n.get('has_additional') \
+        and (n.get('body') or {}).get('kind', 'prov') == 'prov'
 
 
 def mark_source(nodes, m):
@@ -585,6 +616,12 @@ def _gen_spec(rng, profile, n_min, n_max, fail_p, modes, retry_p, falsy_p, cb_p,
             nd['body'] = {'kind': 'const', 'v': rng.choice([None, 0, ''])}
     if not nodes[0].get('has_additional') and rng.random() < 0.15:
         nodes[0]['generic_input'] = True      # (a build_node-derived class cannot be a recurrent start node)
+    if rng.random() < 0.2:
+        # several processing nodes derived from one generic base class (build_node with attrs)
+        el = [nd for nd in nodes[1:] if gbase_ok(dict(nd, gbase=True))]
+        if len(el) >= 2:
+            for nd in rng.sample(el, min(len(el), 3)):
+                nd['gbase'] = True
     spec = {'nodes': nodes, 'input': 0, 'output': n - 1, 'input_kwargs': {'x': rng.choice(['v', 'w', ''])}}
     spec = prune(spec)
     if cb_p and rng.random() < cb_p:
